@@ -2,14 +2,20 @@ SPEC = {
     'id': 'C02',
     'properties_file': 'theories/Properties/C02.v',
     'properties_module': 'Properties.C02',
-    'gen_files': ['theories/GenFacts/ConstsFacts.v'],
+    'gen_files': ['theories/GenFacts/ConstsFacts.v', 'theories/GenFacts/SealFacts.v'],
     'streams': [{
         'name': 'ratchet', 'pkg': './pkg/secretstore', 'test': 'TestVerifC02',
         'files': [('pkg/secretstore', 'harness/secretstore/zz_verif_common_test.go'),
                   ('pkg/secretstore', 'harness/secretstore/zz_verif_c02_test.go')],
         'model_module': 'Model.C02_Ratchet', 'shard': 150, 'timeout': 900,
+    }, {
+        'name': 'concurrent', 'pkg': './pkg/secretstore', 'test': 'TestVerifC02Concurrent',
+        'files': [('pkg/secretstore', 'harness/secretstore/zz_verif_common_test.go'),
+                  ('pkg/secretstore', 'harness/secretstore/zz_verif_c02_test.go'),
+                  ('pkg/secretstore', 'harness/secretstore/zz_verif_c02conc_test.go')],
+        'model_module': 'Model.C02_Ratchet', 'shard': 150, 'timeout': 600,
     }],
-    'rule': 'histories of RegisterChainKey / OpenEnvelopePayload / IsChainKeyKnownForDevice on a fresh real SecretStore '
+    'rule': 'concurrent stream (oracle only): two deliveries of one sender at once on a store whose datastore delays every access at random (two log opens of two new messages, or a log open and a push open of the same message; window 2, registered at 0), then the message at the edge of the window c + window + opened must open, 150 (3000) rounds; histories of RegisterChainKey / OpenEnvelopePayload / IsChainKeyKnownForDevice on a fresh real SecretStore '
             '(window 1..4 with up to 7 messages of 1-2 senders, and the default window 100 with up to 300 messages); '
             'random histories and shuffled deliveries with retries and re-delivered announcements; thorough adds all '
             'sequences of length 6 over {open 1..4, register at 0, register at 1}; non-trivial = at least one failed '
